@@ -24,6 +24,7 @@ Proof.
     + destruct H0 as [H0 | H0]; [| eapply (l_okcnt _ _ L); eauto]. subst e'.
       destruct e; cbn [reply_of] in R1; try discriminate R1; discriminate Hq.
   - apply (l_cntle _ _ L).
+  - eapply (l_lamcnt _ _ L); eauto.
   - assert (Hd : In (ECslReply r T ks st) (s_dlv s) -> In (ECslReply r T ks st) (s_dlv s')).
     { destruct Ld as [Ld | [e' [_ Ld]]]; rewrite Ld; auto. intros; right; auto. }
     destruct Lc as [Lc | [[r0 [T0 [ks0 [st0 Ee]]]] Lc]]; rewrite Lc in H0.
@@ -54,6 +55,7 @@ Proof.
     + apply (l_nu _ _ L _ _ H).
     + eapply (l_okcnt _ _ L); eauto.
     + apply (l_cntle _ _ L).
+    + eapply (l_lamcnt _ _ L); eauto.
     + apply (l_csl_sub _ _ L); auto.
     + eapply (l_csl_sent _ _ L); eauto.
     + exfalso. destruct (HI T) as [G _]. destruct (g_fresh_cnt _ _ G) as [_ [_ [_ [_ [_ [E _]]]]]]; unfold hasm, F in *; congruence.
@@ -64,6 +66,7 @@ Proof.
     + apply (l_nu _ _ L _ _ H).
     + eapply (l_okcnt _ _ L); eauto.
     + apply (l_cntle _ _ L).
+    + eapply (l_lamcnt _ _ L); eauto.
     + apply (l_csl_sub _ _ L); auto.
     + eapply (l_csl_sent _ _ L); eauto.
     + apply (l_pcok _ _ L); auto.
@@ -108,6 +111,7 @@ Proof.
   - apply (l_nu _ _ L _ _ H0).
   - eapply (l_okcnt _ _ L); eauto.
   - apply (l_cntle _ _ L).
+  - eapply (l_lamcnt _ _ L); eauto.
   - apply Hd'. apply (l_csl_sub _ _ L). destruct Lc as [Lc | [[r0 [T1 [ks0 [st0 Ee]]]] Lc]]; rewrite Lc in H0; auto.
     destruct H0 as [H0 | H0]; auto. exfalso. subst e. inversion H0. subst. apply Hne. reflexivity.
   - apply Hs'. eapply (l_csl_sent _ _ L). apply Hd; eauto.
@@ -190,6 +194,12 @@ Proof.
       pose proof (l_cntle _ _ L k) as Le. unfold kc in Le. lia.
     + pose proof (l_okcnt _ _ L _ _ _ _ _ H0 H1) as Lt. unfold kc in Lt. destruct x; lia.
   - destruct (Ecnt k) as [E1 E2]. rewrite E1, E2. pose proof (l_cntle _ _ L k) as Le. unfold kc in Le. destruct x; lia.
+  - (* l_lamcnt *) destruct (Ecnt k) as [E1 E2]. rewrite E1, E2. rewrite Elam in H0.
+    pose proof (l_cntle _ _ L k) as Le. unfold kc in Le.
+    assert (Old : lam (getc s T) k = Some m -> (match x with PwOk _ _ => 0 | _ => occ k ks end) + kcnt (getc s T) KNegD k < occ k ks + kcnt (getc s T) KDlv k).
+    { intros Lm. pose proof (l_lamcnt _ _ L _ _ Lm) as Lt. unfold kc in Lt. destruct x; lia. }
+    destruct x as [m0 o | |]; auto. destruct (o =? 0) eqn:Eo; cbn [andb] in H0; auto.
+    destruct (mem k _) eqn:M; auto. apply mem_filter in M. destruct M as [Hk _]. pose proof (occ_pos _ _ Hk). lia.
   - rewrite Hcsl in H0. rewrite Hd'. right. apply (l_csl_sub _ _ L). auto.
   - rewrite Hd' in H0. destruct H0 as [H0 | H0]; [discriminate H0 |]. apply Hs'. eapply (l_csl_sent _ _ L); eauto.
   - eapply km_committed; eauto. apply (l_pcok _ _ L); auto.
